@@ -1,4 +1,4 @@
-"""Layer L2 of C01: container / string / tuple programs of spec/PyCont.tla transpiled, compiled, run and compared."""
+"""Layer L3 of C01: class programs of spec/PyObj.tla (class-table variants x operations) transpiled, compiled, run and compared."""
 import ast
 import json
 import os
@@ -14,25 +14,29 @@ BATCH = 40
 
 
 def load(cfg: str) -> tuple[list[dict], list]:
-	res = tlc.run('PyContEmit', cfg, workers=1, timeout=2400, heap='8g')
+	res = tlc.run('PyObjEmit', cfg, workers=1, timeout=2400, heap='8g')
 	if res.rc != 0:
-		raise Machinery(f'PyCont: evaluation error: {res.out[-600:]}')
-	if res.lines('BOUNDED ') != ['TRUE'] or res.lines('COPIES ') != ['TRUE']:
-		raise Machinery('PyCont: Bounded / CopiesAreValues does not hold in the specification')
+		raise Machinery(f'PyObj: evaluation error: {res.out[-600:]}')
+	if res.lines('DISPATCH ') != ['TRUE'] or res.lines('SUPER ') != ['TRUE'] or res.lines('BASEUNAFFECTED ') != ['TRUE']:
+		raise Machinery('PyObj: DispatchIsDynamic / SuperReachesParent / BaseUnaffected does not hold in the specification')
+	classes = {json.dumps(c['variant'], sort_keys=True): c['text'] for c in (json.loads(line) for line in res.lines('CLASSES '))}
 	cases = [json.loads(line) for line in res.lines('PROG ')]
+	for c in cases:
+		c['classes'] = classes[json.dumps(c['variant'], sort_keys=True)]
+		c['init'] = '/'.join(f'{k}={v}' for k, v in sorted(c['variant'].items()))
 	args = [json.loads(line) for line in res.lines('ARGS ')]
 	if not cases or not args:
-		raise Machinery('PyCont: nothing emitted')
+		raise Machinery('PyObj: nothing emitted')
 	return cases, args[0]
 
 
 def value_of(o: dict) -> tuple:
-	return (list(o['xs']), list(o['ys']), {x['k']: x['v'] for x in o['d']}, {x['k']: x['v'] for x in o['e']}, o['s'], o['n'], o['bb'])
+	return (o['on'], o['otag'], list(o['oitems']), o['sn'], o['sm'], o['stag'], list(o['sitems']), o['n'], o['bb'], o['st'])
 
 
-def _python_value(text: str, arg: list):
+def _python_value(text: str, arg: list, classes: str = ''):
 	scope: dict = {}
-	exec(text, scope)
+	exec(classes + text, scope)
 	try:
 		return scope['f'](*arg)
 	except Exception as e:
@@ -43,33 +47,28 @@ def _run_batch(args) -> dict:
 	cases, first, argv = args
 	from harness.cpp.build import compile_and_run
 	from harness.tranp_env import Env, enter_scratch
-	root = enter_scratch('verif-c01c-')
+	root = enter_scratch('verif-c01o-')
 	failures, machinery = [], []
 	for case in cases:
 		for arg, out in zip(argv, case['outcomes']):
-			ref = _python_value(case['text'], arg)
-			if out['undef']:
-				continue  # outside the agreement subset (Python raises IndexError / KeyError or C++ is undefined)
+			ref = _python_value(case['text'], arg, case['classes'])
 			if ref != value_of(out):
-				machinery.append(f'spec and CPython disagree on {case["ops"]} from init {case["init"]} with {arg}: spec {value_of(out)} vs {ref}')
+				machinery.append(f'spec and CPython disagree on {case["ops"]} with class table {case["init"]} and {arg}: spec {value_of(out)} vs {ref}')
 	if machinery:
 		return {'failures': [], 'machinery': machinery, 'programs': 0, 'results': 0}
-	cases = [c for c in cases if any(not o['undef'] for o in c['outcomes'])]
-	if not cases:
-		return {'failures': [], 'machinery': [], 'programs': 0, 'results': 0}
-	program = '\n'.join(c['text'].replace('def f(', f'def f{first + i}(', 1) for i, c in enumerate(cases))
+	program = cases[0]['classes'] + '\n'.join(c['text'].replace('def f(', f'def f{first + i}(', 1) for i, c in enumerate(cases))
 	kind = lambda c: '+'.join(c['ops'])
 	try:
 		text = Env().transpile_source(program)
 	except Exception as e:
 		if len(cases) == 1:
-			return {'failures': [{'clause': 'NeverRejected', 'detail': f'rejected by the transpiler: {type(e).__name__}: {str(e)[:160]}', 'text': cases[0]['text'], 'kind': kind(cases[0])}], 'machinery': [], 'programs': 1, 'results': 0}
+			return {'failures': [{'clause': 'NeverRejected', 'detail': f'rejected by the transpiler: {type(e).__name__}: {str(e)[:160]}', 'text': cases[0]['text'], 'kind': kind(cases[0]), 'table': cases[0]['init']}], 'machinery': [], 'programs': 1, 'results': 0}
 		half = len(cases) // 2
 		return _merge(_run_batch((cases[:half], first, argv)), _run_batch((cases[half:], first + half, argv)))
 	lines = []
 	for i, case in enumerate(cases):
 		for j, (arg, out) in enumerate(zip(argv, case['outcomes'])):
-			if not out['undef']:
+			if True:
 				lines.append(f'\ttry {{ auto v = f{first + i}({arg[0]}, {arg[1]}); std::cout << "{first + i} {j} " << verif::show(v) << "\\n"; }} catch (const std::exception& ex) {{ std::cout << "{first + i} {j} raise\\n"; }}')
 	res = compile_and_run(os.path.join(root, f'c{first}'), text, '\n'.join(lines))
 	if not res['compiled']:
@@ -91,7 +90,7 @@ def _run_batch(args) -> dict:
 				return {'failures': [{'clause': 'CompilerAccepts', 'detail': f'emitted C++ is rejected by the compiler: {err[:200]}', 'text': cases[0]['text'], 'kind': kind(cases[0]), 'emitted': text[-900:]}], 'machinery': [], 'programs': 1, 'results': 0}
 			half = len(cases) // 2
 			return _merge(_run_batch((cases[:half], first, argv)), _run_batch((cases[half:], first + half, argv)))
-		failures = [{'clause': 'CompilerAccepts', 'detail': f'emitted C++ is rejected by the compiler: {bad[first + i][:200]}', 'text': c['text'], 'kind': kind(c)} for i, c in enumerate(cases) if first + i in bad]
+		failures = [{'clause': 'CompilerAccepts', 'detail': f'emitted C++ is rejected by the compiler: {bad[first + i][:200]}', 'text': c['text'], 'kind': kind(c), 'table': c['init']} for i, c in enumerate(cases) if first + i in bad]
 		rest = [c for i, c in enumerate(cases) if first + i not in bad]
 		sub = _run_batch((rest, first, argv)) if rest else {'failures': [], 'machinery': [], 'programs': 0, 'results': 0}
 		return _merge({'failures': failures, 'machinery': [], 'programs': len(failures), 'results': 0}, sub)
@@ -103,8 +102,6 @@ def _run_batch(args) -> dict:
 	results = 0
 	for i, case in enumerate(cases):
 		for j, (arg, out) in enumerate(zip(argv, case['outcomes'])):
-			if out['undef']:
-				continue
 			results += 1
 			raw = got.get((first + i, j))
 			try:
@@ -112,7 +109,7 @@ def _run_batch(args) -> dict:
 			except Exception:
 				val = raw
 			if val != value_of(out):
-				failures.append({'clause': 'SameValue', 'detail': f'f({arg[0]}, {arg[1]}): C++ gives {raw}, Python {value_of(out)}' + (f' (the program died: exit {res["rc"]})' if raw is None else ''), 'text': case['text'], 'kind': kind(case)})
+				failures.append({'clause': 'SameValue', 'detail': f'f({arg[0]}, {arg[1]}): C++ gives {raw}, Python {value_of(out)}' + (f' (the program died: exit {res["rc"]})' if raw is None else ''), 'text': case['text'], 'kind': kind(case), 'table': case['init']})
 				break
 	return {'failures': failures, 'machinery': [], 'programs': len(cases), 'results': results}
 
@@ -130,23 +127,30 @@ def culprit(fs: list[dict]) -> str:
 	return max(sorted(counts), key=lambda k: counts[k])
 
 
-def run_containers(ctx: Ctx) -> tuple[list[Violation], dict]:
-	cases, argv = load('PyCont_1.cfg')
-	two, _ = load('PyCont_2.cfg')
+def run_classes(ctx: Ctx) -> tuple[list[Violation], dict]:
+	cases, argv = load('PyObj_1.cfg')
+	two, _ = load('PyObj_2few.cfg' if ctx.quick else 'PyObj_2.cfg')
 	rnd = random.Random(ctx.seed)
-	doubled = [c for c in two if c['ops'][0] == c['ops'][1]]      # the same operation twice: names declared by an operation meet themselves
-	two = (doubled[::2] if ctx.quick else doubled) + rnd.sample(two, 300 if ctx.quick else min(len(two), 12000))
+	if ctx.quick:
+		cases = cases[::3] + cases[1::7]
+	two = rnd.sample(two, 250 if ctx.quick else min(len(two), 12000))
 	cases = cases + two
-	batches = [(cases[i:i + BATCH], i, argv) for i in range(0, len(cases), BATCH)]
+	by_variant: dict[str, list] = {}
+	for c in cases:
+		by_variant.setdefault(c['init'], []).append(c)
+	batches, first = [], 0
+	for _, cs in sorted(by_variant.items()):
+		for i in range(0, len(cs), BATCH):
+			batches.append((cs[i:i + BATCH], first, argv))
+			first += BATCH
 	with ProcessPoolExecutor(max_workers=16) as ex:
 		results = list(ex.map(_run_batch, batches))
 	machinery = [m for r in results for m in r['machinery']]
 	if machinery:
-		raise Machinery(f'{len(machinery)} container programs where spec and CPython disagree, e.g. {machinery[0]}')
+		raise Machinery(f'{len(machinery)} class programs where spec and CPython disagree, e.g. {machinery[0]}')
 	failures = [f for r in results for f in r['failures']]
 	nres = sum(r['results'] for r in results)
-	ctx.log(f'L2: {len(cases)} container / string / tuple programs transpiled, compiled and run, {nres} results compared: {len(failures)} programs deviate')
-	# attribute failures to operations: single-operation programs first, then what remains
+	ctx.log(f'L3: {len(cases)} class programs over {len(by_variant)} class tables transpiled, compiled and run, {nres} results compared: {len(failures)} programs deviate')
 	violations = []
 	by_clause: dict[str, list] = {}
 	for f in failures:
@@ -159,5 +163,6 @@ def run_containers(ctx: Ctx) -> tuple[list[Violation], dict]:
 			mine = [f for f in rest if op in f['kind'].split('+')]
 			rest = [f for f in rest if op not in f['kind'].split('+')]
 			s = min(mine, key=lambda f: (f['kind'].count('+'), len(f['text'])))
-			violations.append(Violation(f'{clause}:container-op:{op}', clause, f'{s["detail"]} on {s["text"]!r} ({len(mine)} programs use `{op}`)', {'text': s['text'], 'emitted': s.get('emitted', '')}))
-	return violations, {'container_programs': len(cases), 'container_results': nres, 'constructs': ['lists (append, pop, insert, extend, clear, in, fill, len, copy, index get/set/augmented set, comprehensions, slices, loops with enumerate / range(len) / while-pop), dicts (set, augmented set, pop, get, in, getitem, del, clear, len, copy, items/values/keys loops, comprehension), strings (concat, str(int), len, startswith, endswith, find, slices, index, ==), tuples (pack, unpack, index), nested containers, closures, default / keyword arguments, casts, try/raise/except, break/continue - every operation alone and sampled pairs, from three initial states, on four argument vectors']}
+			tables = sorted({f.get('table', '') for f in mine})
+			violations.append(Violation(f'{clause}:class-op:{op}', clause, f'{s["detail"]} on {s["text"]!r} with class table {s.get("table")} ({len(mine)} programs use `{op}`, {len(tables)} class tables)', {'text': s['text'], 'table': s.get('table'), 'emitted': s.get('emitted', '')}))
+	return violations, {'class_programs': len(cases), 'class_results': nres, 'class_tables': len(by_variant), 'constructs': ['classes: fields, constructor with super().__init__, methods with default / keyword arguments, properties, a classmethod constructing cls, single inheritance with overriding (with and without super()), dynamic dispatch through self, enum members / comparison / value / name / as list element and dict key, objects in lists, temporaries, objects passed to nested functions - 24 class-table variants x every operation alone and sampled pairs']}
